@@ -18,6 +18,7 @@ import LdkModel.Proofs.GossipAsync
 import LdkModel.Proofs.GossipAsyncEquiv
 import LdkModel.Proofs.GossipRgsNodes
 import LdkModel.Proofs.GossipRgsIdem
+import LdkModel.Proofs.GossipRgsIdem2
 import LdkModel.Proofs.GossipPersist
 import LdkModel.Model.GossipOrder
 import LdkModel.Generated.TlvSchemas
@@ -711,8 +712,8 @@ example : Order.orderNode [5, 7, 9] ((SMap.empty.insert 5 ()).insert 7 () |>.ins
     (the other direction is stale, the announcement old) and tombstones it; the second application re-creates it from
     the snapshot's announcement — `add_channel_from_partial_announcement` has no tombstone test — with the backdated
     receipt time, which is recent enough to survive the pruning: a channel entry without any direction that the
-    first application did not leave behind. (Without the final pruning every generated snapshot is idempotent on the
-    real code — implementation oracle of phase E1; no theorem.) -/
+    first application did not leave behind. (Without the final pruning a snapshot IS idempotent:
+    `rgs_idempotent_without_pruning`; implementation oracle of phase E1.) -/
 theorem rgs_snapshot_with_pruning_not_idempotent :
     ∃ (g : Graph) (s : Impl.Snapshot),
       ((Impl.applySnapshot g s).1.channels.get 3).isNone = true ∧
@@ -742,14 +743,25 @@ theorem async_failed_lookup_still_replays_parked :
 
 
 
-/-- SNAPSHOT IDEMPOTENCE, the part that holds for all inputs: a snapshot WITHOUT channel updates (announcements
-    and node reminders only — processing.rs returns before the pruning) applied a second time, on top of ANY graph,
-    changes nothing and answers the same. `_partial`: missing are snapshots that carry channel updates — without
-    the final pruning they are idempotent on every generated input (implementation oracle, phase E1) but not proved;
-    WITH the final pruning idempotence is FALSE: `rgs_snapshot_with_pruning_not_idempotent`. -/
-theorem rgs_idempotent_without_updates_partial (g : Graph) (s : Impl.Snapshot) (hu : s.upds = []) :
-    Impl.applySnapshot (Impl.applySnapshot g s).1 s = Impl.applySnapshot g s :=
-  Impl.snapshot_idem_no_updates g s hu
+/-- SNAPSHOT IDEMPOTENCE, exactly where it holds: whenever the final pruning does not run — no clock is supplied
+    (`update_network_graph_no_std(.., None)`), or the snapshot carries no channel updates (processing.rs returns
+    before the pruning) — a snapshot applied a second time, on top of ANY graph, changes nothing and answers the same:
+    announcements are duplicates, node reminders and channel updates (full and incremental, whatever fields they
+    would now inherit) meet the snapshot's own backdated timestamp and are refused as not newer. WITH the final pruning
+    idempotence is FALSE: `rgs_snapshot_with_pruning_not_idempotent`. -/
+theorem rgs_idempotent_without_pruning (g : Graph) (s : Impl.Snapshot) (h : s.now = none ∨ s.upds = []) :
+    Impl.applySnapshot (Impl.applySnapshot g s).1 s = Impl.applySnapshot g s := by
+  rcases h with h | h
+  · exact Impl.snapshot_idem_no_clock g s h
+  · exact Impl.snapshot_idem_no_updates g s h
+
+/-- non-vacuity: an incremental and a full update land; applying the snapshot again changes nothing -/
+example :
+    let g := Impl.run Graph.empty [.msg (.chanAnn ⟨3, 1, 2, false, true, true, true, true, true, true, .noLookup, 100⟩),
+      .msg (.chanUpd ⟨3, false, false, 10, 40, 1, 4000, 7, 2, true, false, true, 1⟩)]
+    let s : Impl.Snapshot := ⟨700000, none, [⟨1, 66⟩], [⟨3, none, 1, 2⟩], 40, 1, 10, 20, 900000, [⟨3, 192, 144, 0, 0, 0, 0⟩, ⟨3, 1, 0, 0, 0, 0, 0⟩]⟩
+    ((Impl.applySnapshot g s).1.channels.get 3).map (fun c => (c.d12.map (fun u => (u.lastUpdate, u.cltv, u.feeBase)), c.d21.map (·.feeBase)))
+      = some (some (95200, 144, 7), some 10) := by decide
 
 example : ∃ (g : Graph) (s : Impl.Snapshot), s.upds = [] ∧ (Impl.applySnapshot g s).1.channels.size = 2 ∧
     ((Impl.applySnapshot g s).1.nodes.get 1).bind (fun n => n.ann.map (·.lastUpdate)) = some 95200 :=
